@@ -363,6 +363,12 @@ func refParseValue(b []byte) (*MV, bool) {
 func checkMarshalRoot(r *Run, o *simObj, what string) {
 	how := r.C.Intn("marshalvia", 3)
 	what += []string{" (fresh Iter)", " (Iter after Advance)", " (Iter after AdvanceInto)"}[how]
+	if r.C.Intn("marshaldst", 3) == 0 {
+		// through MarshalJSONBuffer with a destination that may already hold bytes
+		pk := 1 + r.C.Intn("marshaldstk", len(marshalPrefixes)-1)
+		how += 3 * pk
+		what += fmt.Sprintf(" (MarshalJSONBuffer, destination kind %d)", pk)
+	}
 	out, err := MarshalRootVia(o.pj, how)
 	nonFinite := hasNonFinite(o.model)
 	if err != nil {
@@ -491,6 +497,10 @@ func checkMarshalInner(r *Run, o *simObj, what string) {
 		pos := poss[c.Intn("mpos", len(poss))]
 		m := getAt(o.model, pos)
 		par := getAt(o.model, pos[:len(pos)-1])
+		innerPK := 0 // destination kind for the MarshalJSONBuffer variants (0: none)
+		if c.Intn("minnerdst", 3) == 0 {
+			innerPK = 1 + c.Intn("minnerdstk", len(marshalPrefixes)-1)
+		}
 		var out []byte
 		var how string
 		err := safely(func() error {
@@ -515,7 +525,7 @@ func checkMarshalInner(r *Run, o *simObj, what string) {
 							return fmt.Errorf("member #%d unreachable: %v", x, e)
 						}
 					}
-					out, e = el.MarshalJSON()
+					out, e = appendMarshal(innerPK, el.MarshalJSONBuffer)
 					return e
 				case 1:
 					how = "Object.Parse/Elements"
@@ -532,7 +542,7 @@ func checkMarshalInner(r *Run, o *simObj, what string) {
 						return e
 					}
 					// and the whole object through Elements.MarshalJSON
-					all, e := els.MarshalJSON()
+					all, e := appendMarshal(innerPK, els.MarshalJSONBuffer)
 					if e != nil {
 						if hasNonFinite([]*MV{par}) {
 							return nil
@@ -588,7 +598,7 @@ func checkMarshalInner(r *Run, o *simObj, what string) {
 				}
 				how = "Array.MarshalJSON"
 				m = par
-				out, e = arr.MarshalJSON()
+				out, e = appendMarshal(innerPK, arr.MarshalJSONBuffer)
 				return e
 			}
 			return fmt.Errorf("parent of %v is a scalar", pos)
